@@ -322,8 +322,9 @@ void NinjaMain::ParsePreviousElapsedTimes() {
       BuildLog::LogEntry* log_entry = build_log_.LookupByOutput(out->path());
       if (!log_entry)
         continue;  // Maybe we'll have log entry for next output of this edge?
+      // The times are whatever the log says: subtract in the wider type.
       edge->prev_elapsed_time_millis =
-          log_entry->end_time - log_entry->start_time;
+          static_cast<int64_t>(log_entry->end_time) - log_entry->start_time;
       break;  // Onto next edge.
     }
   }
